@@ -39,6 +39,7 @@ func To(errBuf *strings.Builder, validName, objName, fieldName string, tv reflec
 		}
 		// 生成如: "TestOrder.AppName" input "xxx", Explain: it is less than 2 length
 		errBuf.WriteString(GetJoinValidErrStr(objName, fieldName, valStr, ExplainEn, "it is less than", ToStr(min), unitStr))
+		return // 一个验证只产生一条错误信息(min > max 时两个条件会同时满足)
 	}
 
 	if isMoreThan {
@@ -107,6 +108,7 @@ func OTo(errBuf *strings.Builder, validName, objName, fieldName string, tv refle
 		}
 		// 生成如: "TestOrder.AppName" input "xxx", Explain: it is less than 2 length
 		errBuf.WriteString(GetJoinValidErrStr(objName, fieldName, valStr, ExplainEn, "it is less than or equal", ToStr(min), unitStr))
+		return // 一个验证只产生一条错误信息(min >= max 时两个条件会同时满足)
 	}
 
 	if isMoreThan {
